@@ -252,4 +252,42 @@ def SimSt.Owned {σ α P} (held : σ → Option P) (x : SimSt σ α P) : Prop :=
 def debHeld {α} (s : DebSt α) : Option Nat := s.timer.map (·.2)
 def toHeld (s : ToSt) : Option ToTimer := s.timer
 
+/-! ## Re-entrant feedback (correspondence only; no theorem)
+The consumer, from inside its `on_next` for its `k`-th element, pushes `echo k` into the same hot source.  The nested
+`on_next` runs in the state the operator is in when it calls downstream: for throttle_first after `last_on_next = now`,
+for sample after `has_value = False` (and before the `at_end` test).  Echoes do not echo. -/
+
+def tfRunFb {α} (w : Nat) (echo : Nat → Option α) : Nat → Option Nat → TL α → TL α
+  | _, _, [] => []
+  | k, last, (t, .next x) :: rest =>
+    match (tfOnNext w t last x).2 with
+    | [] => tfRunFb w echo k (tfOnNext w t last x).1 rest
+    | out =>
+      match echo k with
+      | some e =>
+        at_ t out ++ at_ t (tfOnNext w t (tfOnNext w t last x).1 e).2 ++
+          tfRunFb w echo (k + 1 + (tfOnNext w t (tfOnNext w t last x).1 e).2.length)
+            (tfOnNext w t (tfOnNext w t last x).1 e).1 rest
+      | none => at_ t out ++ tfRunFb w echo (k + 1) (tfOnNext w t last x).1 rest
+  | _, _, (t, n) :: _ => [(t, n)]
+
+def sampSimFb {α} (echo : Nat → Option α) (isEcho : α → Bool) : Nat → List (Nat × SampItem α) → Bool → SampSt α → TL α
+  | _, [], _, _ => []
+  | k, (t, .src n) :: q, srcLive, s =>
+    if srcLive then
+      match n with
+      | .next v => sampSimFb echo isEcho k q true (sampOnNext s v)
+      | .error e => [(t, .error e)]
+      | .completed => sampSimFb echo isEcho k q false (sampOnCompleted s)
+    else sampSimFb echo isEcho k q false s
+  | k, (tk, .samp ev) :: q, srcLive, s =>
+    match ev with
+    | .tick =>
+      let delivered := s.hasValue && s.value.isSome
+      let s1 := (sampTick s).1
+      let fresh := match s.value with | some v => !isEcho v | none => false
+      let s2 := if delivered && srcLive && fresh then (match echo k with | some e => sampOnNext s1 e | none => s1) else s1
+      at_ tk (sampTick s).2 ++ (if s.atEnd then [] else sampSimFb echo isEcho (if delivered then k + 1 else k) q srcLive s2)
+    | .err e => [(tk, .error e)]
+
 end Timed
